@@ -162,6 +162,7 @@ def lexDefault (cs : List Char) : Option (Option Tok × Nat × Bool) :=
     else if c = '/' && rest.head? = some '/' then some (none, takeWhileN (fun c => c ≠ '\r' && c ≠ '\n') cs, false)
     else if c = '/' && rest.head? = some '*' && (commentEnd (rest.drop 1)).isSome then
       some (none, 2 + (commentEnd (rest.drop 1)).getD 0, false)
+    else if c = '/' && rest.head? = some '*' then none   -- a comment that is never closed: syntax error (as in Go)
     else if isLetter c then
       let n := takeWhileN (fun c => isLetter c || isDec c) cs
       let s := String.mk (cs.take n)
